@@ -21,7 +21,7 @@ func profileByName(name string) Profile {
 		p.MinFns, p.MaxFns = 4, 12
 		p.PMidInvoke = 0.4
 	case "keys":
-		p.Types = []int{0, 1, 3, 8}
+		p.Types = []int{0, 1, 3, 8, 19}
 		p.Names = []string{"", "n1", "q\"x"}
 		p.Groups = []string{"g1", "g2", "n1"}
 		p.PNamed, p.PAs, p.PDup, p.PGroupRes, p.PGroupPar = 0.6, 0.3, 0.2, 0.3, 0.3
@@ -123,7 +123,7 @@ func jobsFor(prop, tier string) []JobSpec {
 	case "C03":
 		return []JobSpec{{"hist:general", n(25000, 1200000)}, {"hist:soft", n(10000, 500000)}, {"hist:scopes", n(15000, 700000)}}
 	case "C04":
-		return []JobSpec{{"hist:gapped", n(40000, 2000000)}, {"hist:scopes", n(10000, 500000)}}
+		return []JobSpec{{"hist:gapped", n(40000, 2000000)}, {"hist:scopes", n(10000, 500000)}, {"hist:faults", n(10000, 500000)}}
 	case "C07":
 		return []JobSpec{{"faultenum:faultbase", n(300*faultSlots, 12000*faultSlots)}, {"hist:faults", n(20000, 1000000)}, {"hist:faultsdecor", n(15000, 700000)}}
 	case "C08":
